@@ -47,7 +47,7 @@ def make_world(ctx, rng, n):
     for i, ext in enumerate(['.p8', '.p8.png']):
         sub = rng.choice(['', 'carts/'])
         name = '%sc%d%s' % (sub, i, ext)
-        ntabs = rng.randrange(1, 4)
+        ntabs = rng.choice([1, 2, 3, 1, 2, 3, 11, 13, 22])     # also carts with two-digit tab numbers
         code = b'\n-->8\n'.join(b'-- tab %d of %d\nt%d_%d=1' % (t, i, i, t) for t in range(ntabs))
         code += rng.choice([b'\n', b''])
         if rng.random() < 0.3:
@@ -76,12 +76,22 @@ def load_noinc(path):
         return fmt.from_file(fh, filename=path)
 
 
+def tab_of(m):
+    """the tab selector of a recognised include line, as the implementation's own regular expression captured it"""
+    try:
+        t = m.group(3)
+        if not t:
+            return 'n'
+        return int(t[1:]) if t.startswith(b':') else int(t)
+    except Exception as e:
+        return 'impl-error:%s' % type(e).__name__
+
 def run(ctx, res):
     rng = ctx.rng
     from pico8.game import file as gfile
     from pico8.game.formatter import p8
     res.rule = ('carts with 0-5 #include lines at first/middle/last positions; .lua, .p8, .p8.png targets in the cart directory and '
-                'subdirectories; tab selectors 0..tabs+1; included code with and without final newline; nested #include inside an included '
+                'subdirectories; carts with 1-22 tabs; tab selectors 0..tabs+1 and multi-digit ones; included code with and without final newline; nested #include inside an included '
                 'cart; missing targets; expected code computed by the generator; also INCLUDE_LINE_RE and lines_for_tab directly '
                 'against the model; distinct non-trivial = distinct (target kind, selector class, position class, final-newline?)')
     lines, expect, cases = [], [], []
@@ -103,6 +113,8 @@ def run(ctx, res):
                 sel = None
                 if t[0] == 'cart' and rng.random() < 0.7:
                     sel = rng.randrange(0, t[2] + 2)
+                    if rng.random() < 0.25:
+                        sel = rng.choice([10, 11, 12, 20, 21, 100, 101])      # multi-digit selectors, inside and beyond
                 line = rng.choice([b'', b'  ', b'\t']) + b'#include' + rng.choice([b' ', b'  ', b'\t']) + name.encode() + (b':%d' % sel if sel is not None else b'')
                 line += rng.choice([b'\n', b' \n', b'  -- note\n'])
                 code_lines.append(line)
@@ -151,7 +163,7 @@ def run(ctx, res):
                 expect.append('pass')
             else:
                 full = os.path.abspath(os.path.normpath(os.path.join(root, (m.group(1) + m.group(2)).decode())))
-                expect.append('want %s %s %s' % (I.hp(full), hx(m.group(2)), 'n' if not m.group(3) else int(m.group(3)[1:])))
+                expect.append('want %s %s %s' % (I.hp(full), hx(m.group(2)), tab_of(m)))
             cases.append({'op': 'incline', 'line': hx(l)})
         if n == 0:
             res.sample({'cart_code': repr(b''.join(code_lines)[:200]), 'loaded_code': repr(b''.join(got)[:200])})
@@ -170,11 +182,21 @@ def run(ctx, res):
         pass
     # recogniser + tab selection directly
     words = [b'#include', b' ', b'\t', b'a', b'a.lua', b'b.p8', b'c.p8.png', b'.lua', b'.p8', b':', b'1', b':12', b'x y', b'-- c', b'/', b'..', b'.luax', b'#inc']
-    for _ in range(ctx.budget(1500, 30000)):
-        l = b''.join(rng.choice(words) for _ in range(rng.randrange(1, 7))) + rng.choice([b'\n', b''])
+    for it in range(ctx.budget(1500, 30000)):
+        if it % 2:
+            l = b''.join(rng.choice(words) for _ in range(rng.randrange(1, 7))) + rng.choice([b'\n', b''])
+        else:
+            # mostly-valid include lines, one random part mangled now and then
+            parts = [rng.choice([b'', b' ', b'\t ', b'x']), b'#include', rng.choice([b' ', b'\t', b'  ', b'']),
+                     rng.choice([b'a', b'lib/a', b'a.b', b'../a', b'a:1', b'']), rng.choice([b'.lua', b'.p8', b'.p8.png', b'.txt', b'.lua.p8', b'']),
+                     rng.choice([b'', b'', b':0', b':1', b':7', b':10', b':12', b':123', b':007', b':', b':x', b':1x', b': 1', b':1:2']),
+                     rng.choice([b'', b' ', b' -- c', b'x']), rng.choice([b'\n', b''])]
+            if rng.random() < 0.2:
+                parts[rng.randrange(len(parts))] = rng.choice(words)
+            l = b''.join(parts)
         m = p8.INCLUDE_LINE_RE.match(l)
         lines.append('matchinc ' + hx(l))
-        expect.append('none' if not m else 'ok %s %s %s' % (hx(m.group(1)), hx(m.group(2)), 'n' if not m.group(3) else int(m.group(3)[1:])))
+        expect.append('none' if not m else 'ok %s %s %s' % (hx(m.group(1)), hx(m.group(2)), tab_of(m)))
         cases.append({'op': 'matchinc', 'line': hx(l)})
         res.evaluations += 1
     for _ in range(ctx.budget(300, 5000)):
